@@ -78,8 +78,8 @@ func New(prop, tier, level string) *Run {
 			}
 		}
 	}
-	os.MkdirAll(filepath.Join(ws.VerifDir(), "evidence"), 0o755)
-	os.MkdirAll(filepath.Join(ws.VerifDir(), "replays"), 0o755)
+	os.MkdirAll(outDir("evidence"), 0o755)
+	os.MkdirAll(outDir("replays"), 0o755)
 	return r
 }
 
@@ -180,7 +180,7 @@ func (r *Run) Violation(sig string, msg string, replay any) {
 		return
 	}
 	name := fmt.Sprintf("%s-%s-%02d.json", r.Prop, r.Tier, len(r.violOrder))
-	path := filepath.Join(ws.VerifDir(), "replays", name)
+	path := filepath.Join(outDir("replays"), name)
 	b, _ := json.MarshalIndent(map[string]any{"property": r.Prop, "signature": sig, "message": msg, "case": replay}, "", " ")
 	_ = os.WriteFile(path, b, 0o644)
 	fmt.Printf("VIOLATION property=%s replay=%s\n", r.Prop, path)
@@ -245,7 +245,7 @@ func (r *Run) Finish(rule string) int {
 		"wall_s": float64(int(time.Since(r.start).Seconds()*100)) / 100, "violations": r.nViol,
 	}
 	b, _ := json.MarshalIndent(ev, "", " ")
-	path := filepath.Join(ws.VerifDir(), "evidence", r.Prop+".json")
+	path := filepath.Join(outDir("evidence"), r.Prop+".json")
 	if err := os.WriteFile(path, append(b, '\n'), 0o644); err != nil {
 		fmt.Fprintln(os.Stderr, "HARNESS: cannot write evidence:", err)
 		return 2
@@ -256,4 +256,13 @@ func (r *Run) Finish(rule string) int {
 		return 1
 	}
 	return 0
+}
+
+// outDir is /verif/<name>, except when the check is pointed at a scratch copy of the repository (VERIF_REPO): evidence and
+// replay files of such runs are not evidence about /repo and go to the scratch directory.
+func outDir(name string) string {
+	if ws.RepoDir() != "/repo" {
+		return filepath.Join(ws.Root(), name)
+	}
+	return filepath.Join(ws.VerifDir(), name)
 }
